@@ -134,3 +134,29 @@ Example C02_complete_nonvacuous :
   forest_complete gE2 tokE2 (fun p => p) CE2 toksE2 1 0 5 true FE2 = true /\
   length (root_trees FE2) = 2%nat.
 Proof. vm_compute. repeat split; reflexivity. Qed.
+(* ---- the GLR driver model (Model/GLR.v) ---------------------------------------------------------
+   The completeness statement is FALSE of the faithful model of GLRParser.parse: with the
+   implementation's own LALR table for  S: A A A | EMPTY; A: S 'b' | EMPTY;  on "b" the model
+   (which agrees with the implementation on this and on every generated case, see
+   harness/lib/glrcorr.py) returns a forest from which a derivation certified by the verified
+   checker valid_parse (tsum + root conditions: tree_ok, root = start, leaves a tokenisation
+   of the whole input) does not unfold -- not even up to the spans of interior nodes. *)
+From PV Require Import Model.Table Model.Scan Model.Parser Model.GLR Spec.GLRSpec Validators.TableStruct
+  Validators.ForestSound Proofs.GLRWitness.
+
+Theorem C02_glr_model_lost_refuted :
+  exists (c : pconf) (inp : pinput) (fuel : nat) (start : N) (nodes : forest) (root : nat) (t : tree),
+    pc_consume c = true /\
+    table_struct (pc_g c) (pc_tb c) start = true /\
+    glr_parse_full c inp fuel 0 = GLRForest nodes root /\
+    valid_parse c inp start 0 t = true /\
+    wf_tree (pc_g c) t /\ root_sym (pc_g c) t = Some (NT start) /\
+    forall t', unfolds (glr_forest nodes root) (pred (length (glr_forest nodes root))) t' ->
+               shape t' <> shape t.
+Proof. exact glr_model_lost. Qed.
+Print Assumptions C02_glr_model_lost_refuted.
+
+(* FULL STATEMENT NOT PROVED (false as it stands, see above; open for epsilon-free grammars):
+     forall c inp fuel start nodes root t, table_struct .. = true -> table_complete .. = true ->
+       glr_parse_full c inp fuel 0 = GLRForest nodes root -> valid_parse c inp start 0 t = true ->
+       exists t', unfolds (glr_forest nodes root) (pred (length ..)) t' /\ shape t' = shape t. *)
